@@ -1093,6 +1093,50 @@ impl Suite for WireSuite {
                 cases.push(Case { input: mk_case("whole", &cfgs[0], &[total.clone()], &total), tags: vec![format!("nesting:{}", d)] });
             }
         }
+        // method-implementation scripts x request flags, each followed by a plain built-in call: what a
+        // call may write depends on the flags of ITS request only, whatever the implementation tries
+        {
+            let cfg = &cfgs[1];
+            let p = |t: &str, i: usize| json!({"token": t, "i": i});
+            let scripts: Vec<(&str, Box<dyn Fn(&str) -> Value>)> = vec![
+                ("final", Box::new(move |t| json!([{"op":"reply","p":p(t,0)}]))),
+                ("stream", Box::new(move |t| json!([{"op":"cont","v":true},{"op":"reply","p":p(t,0)},{"op":"cont","v":false},{"op":"reply","p":p(t,1)}]))),
+                ("conttry", Box::new(move |t| json!([{"op":"cont","v":true},{"op":"replytry","p":p(t,0)},{"op":"errtry","name":"e.X"},{"op":"cont","v":false},{"op":"reply","p":p(t,1)}]))),
+                ("latecont", Box::new(move |t| json!([{"op":"replytry","p":p(t,0)},{"op":"cont","v":true},{"op":"replytry","p":p(t,1)},{"op":"cont","v":false},{"op":"replytry","p":p(t,2)}]))),
+                ("latecont-err", Box::new(move |t| json!([{"op":"errtry","name":"e.X","p":p(t,0)},{"op":"cont","v":true},{"op":"errtry","name":"e.Y","p":p(t,1)},{"op":"replytry","p":p(t,2)}]))),
+                ("cont-only", Box::new(move |t| json!([{"op":"cont","v":true},{"op":"replytry","p":p(t,0)},{"op":"replytry","p":p(t,1)}]))),
+                ("recont", Box::new(move |t| json!([{"op":"cont","v":true},{"op":"replytry","p":p(t,0)},{"op":"cont","v":false},{"op":"replytry","p":p(t,1)},{"op":"cont","v":true},{"op":"replytry","p":p(t,2)}]))),
+                ("noreply", Box::new(move |_t| json!([]))),
+                ("err", Box::new(move |t| json!([{"op":"err","name":"org.example.s.Custom","p":p(t,0)}]))),
+            ];
+            let flagsets: Vec<Vec<&str>> = vec![vec![], vec!["more"], vec!["oneway"], vec!["oneway", "more"], vec!["upgrade"],
+                vec!["oneway", "upgrade"], vec!["more", "upgrade"]];
+            for (name, mk) in scripts.iter() {
+                for fl in flagsets.iter() {
+                    for reps in [1usize, 2] {
+                        tok += 1;
+                        let mut total = Vec::new();
+                        for k in 0..reps {
+                            let t = format!("t{}q{}z", tok, k);
+                            let mut v = json!({"method":"org.example.s.Run","parameters":{"token": t, "script": mk(&t)}});
+                            for f in fl.iter() {
+                                v[*f] = json!(true);
+                            }
+                            total.extend_from_slice(&serde_json::to_vec(&v).unwrap());
+                            total.push(0);
+                        }
+                        let follow = json!({"method":"org.varlink.service.GetInfo","parameters":{"token": format!("t{}fz", tok)}});
+                        total.extend_from_slice(&serde_json::to_vec(&follow).unwrap());
+                        total.push(0);
+                        let mode = if (tok + reps) % 2 == 0 { "whole" } else { "feed" };
+                        cases.push(Case {
+                            input: mk_case(mode, cfg, &[total.clone()], &total),
+                            tags: vec!["script-x-flags".into(), format!("kind:script:{}", name), format!("flags:{}", fl.join("+"))],
+                        });
+                    }
+                }
+            }
+        }
         // known finding C02-F3: more than the internal buffer behind an upgrading request, one chunk,
         // through the documented loop
         {
